@@ -23,8 +23,6 @@ HEADER = '''From Coq Require Import ZArith QArith List Bool.
 From Pymoto Require Import Base.Num Base.Cmp Base.QMat Model.Eig.
 Import ListNotations.
 Open Scope Q_scope.
-Definition chkQ := check_history opsQ (fun _ _ => O) closeQ.
-Definition chkC := check_history opsQC (fun _ _ => O) closeQC.
 '''
 
 ERRS = {'AssertionError': 'EAssert', 'IndexError': 'EIndex', 'NotImplementedError': 'ENotImpl'}
@@ -234,7 +232,7 @@ class Emit:
         for r in M:
             nz = np.nonzero(r)[0]
             rows.append('[' + '; '.join(f'({j}%nat, {self.k(r[j])})' for j in nz) + ']')
-        return f'(of_rows {m}%nat [' + '; '.join(rows) + '])'
+        return f"(of_rows{'C' if self.c else 'Q'} {m}%nat [" + '; '.join(rows) + '])'
 
     def optmat(self, M):
         return 'None' if M is None else f'(Some {self.mat(M)})'
@@ -248,14 +246,15 @@ def tol_lit(scale, rel):
 
 def coq_sort(s, ops, em):
     k = s[0]
+    pre = 'sortC_' if em.c else 'sortQ_'
     if k == 'dist':
         t = s[1] if not isinstance(s[1], list) else complex(s[1][0], s[1][1])
-        return f'(sort_dist {ops} {em.k(t)})'
+        return f'({pre}dist {em.k(t)})'
     if k == 'firstk':
-        return f'(sort_firstk {ops} {int(s[1])}%nat)'
+        return f'({pre}firstk {int(s[1])}%nat)'
     if k == 'const':
         return '(sort_const [' + '; '.join(f'{int(i)}%nat' for i in s[1]) + '])'
-    return f'(sort_{k} {ops})'
+    return pre + k
 
 
 def is_sparse(M):
